@@ -202,6 +202,10 @@ func (v Variable) Resolve(env Environ) (string, Variable) {
 		if v.Kind != NameRef {
 			return name, v
 		}
+		if v.Str == "" {
+			// A nameref without a target, like "declare -n ref=".
+			return "", Variable{}
+		}
 		name = v.Str // keep name for the next iteration
 		v = env.Get(name)
 	}
